@@ -183,10 +183,19 @@ func (fr *Frame) enterBlock(b *ssa.BasicBlock, inc []inEdge) *State {
 		t = u.define(fr.vname(phi), t)
 		fr.regs[phi] = t
 		if phi.Comment != "" {
-			st.env[phi.Comment] = envEntry{val: t, typ: phi.Type()}
+			st.env[envName(phi.Comment)] = envEntry{val: t, typ: phi.Type()}
+			if phi.Comment == "rangeindex" {
+				if ord, ok := fr.loopOrd[b]; ok {
+					st.env[fmt.Sprintf("idx%d", ord)] = envEntry{val: t, typ: phi.Type()}
+				}
+			}
 		}
 	}
 	return st
+}
+
+func envName(comment string) string {
+	return comment
 }
 
 func (fr *Frame) vname(v ssa.Value) string {
@@ -352,6 +361,14 @@ func (u *Unit) snapshot() unitSnapshot {
 	return s
 }
 
+func (u *Unit) restoreKeepCmds(s unitSnapshot) {
+	u.facts = u.facts[:s.nfacts]
+	u.obls = u.obls[:s.nobls]
+	u.closureSites = u.closureSites[:s.nsites]
+	u.oblNames = s.oblNames
+	u.bindErrors = u.bindErrors[:s.nbind]
+}
+
 func (u *Unit) restore(s unitSnapshot) {
 	u.cmds = u.cmds[:s.ncmds]
 	u.facts = u.facts[:s.nfacts]
@@ -444,6 +461,9 @@ func (fr *Frame) execLoop(li *loopInfo, order []*ssa.BasicBlock, loops map[*ssa.
 		fr.assumeTypeInv(stPhi, t, phi.Type())
 		if phi.Comment != "" {
 			stPhi.env[phi.Comment] = envEntry{val: t, typ: phi.Type()}
+			if phi.Comment == "rangeindex" {
+				stPhi.env[fmt.Sprintf("idx%d", li.ord)] = envEntry{val: t, typ: phi.Type()}
+			}
 		}
 	}
 	havocPhi := map[*ssa.Phi]Term{}
@@ -492,6 +512,10 @@ func (fr *Frame) execLoop(li *loopInfo, order []*ssa.BasicBlock, loops map[*ssa.
 			// (justified by induction: checked as obligations below on entry and back edges)
 			u.oblige(fr, "inv-entry", blockPos(head), fmt.Sprintf("loop %d: inferred %s >= init", li.ord, phiName(phi)), stE.pc, Ge(phiEntry[phi], lo), true)
 		}
+		if n, ok := fr.rangeUpperBound(phi, li); ok {
+			u.assume(stH.pc, Lt(fr.regs[phi], fr.val(n)))
+			u.oblige(fr, "inv-entry", blockPos(head), fmt.Sprintf("loop %d: inferred %s < bound", li.ord, phiName(phi)), stE.pc, Lt(phiEntry[phi], fr.val(n)), true)
+		}
 	}
 	for _, c := range invs {
 		t, err := fr.evalBool(c.E, stH, fr.entry)
@@ -529,6 +553,9 @@ func (fr *Frame) execLoop(li *loopInfo, order []*ssa.BasicBlock, loops map[*ssa.
 			if lo, ok := fr.monotoneLowerBound(phi, li); ok {
 				u.oblige(fr, "inv-preserved", blockPos(head), fmt.Sprintf("loop %d: inferred %s >= init", li.ord, phiName(phi)), stB.pc, Ge(fr.regs[phi], lo), true)
 			}
+			if n, ok := fr.rangeUpperBound(phi, li); ok {
+				u.oblige(fr, "inv-preserved", blockPos(head), fmt.Sprintf("loop %d: inferred %s < bound", li.ord, phiName(phi)), stB.pc, Lt(fr.regs[phi], fr.val(n)), true)
+			}
 		}
 		for _, c := range invs {
 			t, err := fr.evalBool(c.E, stB, fr.entry)
@@ -553,6 +580,40 @@ func (fr *Frame) execLoop(li *loopInfo, order []*ssa.BasicBlock, loops map[*ssa.
 	for phi, t := range savedPhi {
 		fr.regs[phi] = t
 	}
+}
+
+// rangeUpperBound recognises the range-loop header "t = phi + 1; if t < N" with N defined outside the loop:
+// then phi < N is an inductive invariant (given N >= 0 on entry, which is checked).
+func (fr *Frame) rangeUpperBound(phi *ssa.Phi, li *loopInfo) (ssa.Value, bool) {
+	if phi.Comment != "rangeindex" {
+		return nil, false
+	}
+	b := phi.Block()
+	ifi, ok := b.Instrs[len(b.Instrs)-1].(*ssa.If)
+	if !ok {
+		return nil, false
+	}
+	cmp, ok := ifi.Cond.(*ssa.BinOp)
+	if !ok || cmp.Op != token.LSS {
+		return nil, false
+	}
+	inc, ok := cmp.X.(*ssa.BinOp)
+	if !ok || inc.Op != token.ADD || inc.X != phi {
+		return nil, false
+	}
+	if c, ok := inc.Y.(*ssa.Const); !ok || c.Value == nil || c.Int64() != 1 {
+		return nil, false
+	}
+	// all back edges must carry inc
+	for i, e := range phi.Edges {
+		if li.body[b.Preds[i]] && e != inc {
+			return nil, false
+		}
+	}
+	if in, ok := cmp.Y.(ssa.Instruction); ok && li.body[in.Block()] {
+		return nil, false
+	}
+	return cmp.Y, true
 }
 
 func phiName(phi *ssa.Phi) string {
@@ -737,7 +798,8 @@ func (fr *Frame) discoverEffects(body func(sub edgeMap), base *State, recFrame *
 	fr.exits = fr.exits[:savedExits]
 	fr.regs = savedRegs
 	fr.tuples = savedTuples
-	u.restore(snap)
+	// keep the declarations/definitions made during the pass (written-object terms refer to them); drop the rest
+	u.restoreKeepCmds(snap)
 	rec.classify(u, eff.heapKeys)
 	return eff
 }
@@ -754,10 +816,17 @@ type writeRecorder struct {
 // applyHavoc replaces everything the body may change by fresh symbols in st (base is the pre-state).
 func (fr *Frame) applyHavoc(st, base *State, eff *loopEffects) {
 	u := fr.u
+	if eff.allocs || eff.all {
+		a := u.fresh("alloc", SInt)
+		u.assume(True, Ge(a, base.alloc))
+		st.alloc = a
+	}
 	if eff.all {
 		u.nsym++
 		st.epoch = 1000000 + u.nsym
 		st.heaps = map[string]Term{}
+		st.layer = nil
+		u.epochAlloc[st.epoch] = st.alloc
 		u.note("loop/callback in %s contains a call with unknown effects: all heaps havocked at the loop head", fr.key)
 	} else {
 		for _, k := range sortedKeys(eff.heapKeys) {
@@ -765,6 +834,7 @@ func (fr *Frame) applyHavoc(st, base *State, eff *loopEffects) {
 			old := u.heap(base, k, vs)
 			h := u.fresh("Hl!"+k, ArraySort(SLoc, vs))
 			st.heaps[k] = h
+			u.heapWF(h, vs, st.alloc)
 			// frame: cells of objects that existed before the loop and are not written keep their value
 			if !eff.variant[k] {
 				l := Sym("l!", SLoc)
@@ -776,11 +846,6 @@ func (fr *Frame) applyHavoc(st, base *State, eff *loopEffects) {
 				u.assume(True, Forall([]Term{l}, Implies(And(conds...), Eq(Select(h, l, vs), Select(old, l, vs))), []Term{Select(h, l, vs)}))
 			}
 		}
-	}
-	if eff.allocs || eff.all {
-		a := u.fresh("alloc", SInt)
-		u.assume(True, Ge(a, base.alloc))
-		st.alloc = a
 	}
 	for k := range eff.ghost {
 		if t, ok := base.ghost[k]; ok {
